@@ -741,6 +741,7 @@ func vC05AlphaConfig(t *testing.T, out *vEmitter) {
 func driveC05(t *testing.T, out *vEmitter) {
 	vKeys()
 	defer vC05MethodSpellings(t, out)
+	defer vC05ReplayedToken(t, out)
 	defer vC05AlphaConfig(t, out)
 	defer vC05GenericPKCE(t, out)
 	vC05Legacy(t, out)
@@ -1648,6 +1649,57 @@ func vC05Legacy(t *testing.T, out *vEmitter) {
 		if l.Method != want || (want != "") != (l.Challenge != "") || (want != "") != (verifier != "") {
 			out.Violation("pkce-nonce/challenge-missing", "the authorization request carries no code challenge although a method is configured",
 				map[string]interface{}{"code_challenge_method": c.ccm, "force_code_challenge_method": c.force, "sent_method": l.Method, "challenge_sent": l.Challenge != "", "verifier_stored": verifier != ""})
+		}
+	}
+}
+
+// vC05ReplayedToken: an ID token that completed one login is answered again, byte for byte, to the redemption of LATER
+// logins (same browser and another one): it carries the first login's nonce, so with nonce checking on none of the
+// later logins yields a session - whatever the proxy remembers about that token from the first time.
+func vC05ReplayedToken(t *testing.T, out *vEmitter) {
+	for _, kind := range []string{"oidc", "keycloak-oidc"} {
+		for _, perReq := range []bool{false, true} {
+			kind, perReq := kind, perReq
+			e := vTryNewEnv(t, vEnvCfg{oidc: true, mod: func(o *options.Options) {
+				o.Providers[0].Type = options.ProviderType(kind)
+				o.Providers[0].OIDCConfig.InsecureSkipNonce = false
+				o.Providers[0].CodeChallengeMethod = "S256"
+				o.Cookie.CSRFPerRequest = perReq
+				o.Cookie.Refresh = time.Hour
+			}})
+			if e == nil {
+				out.Stat("c05_replay_config_rejected", 1)
+				continue
+			}
+			b1 := e.newBrowser("https://app.example.com")
+			l1 := b1.start("/one")
+			first := vJWT(vKeyRSA, "RS256", vClaims("user@example.com", map[string]interface{}{"nonce": l1.Nonce}))
+			e.idp.onToken = func(url.Values) (int, string, string, error) {
+				// (Keycloak-OIDC and ADFS read claims from the access token as well: it is a signed token too)
+				return 200, "application/json", vTokenJSON(first, vJWT(vKeyRSA, "RS256", vClaims("user@example.com", nil)), "rt", 3600), nil
+			}
+			cb1 := b1.callback(l1.State, "code")
+			if !e.sessionCookieSet(cb1) {
+				out.Violation("pkce-nonce/own-login-failed", "a login carrying its own state and CSRF cookie did not complete", map[string]interface{}{"provider": kind, "status": cb1.Status})
+				continue
+			}
+			// the session of login 1 is used once (stored-session validation may look at the token again)
+			b1.get("/page")
+			for i, who := range []string{"same-browser", "other-browser", "other-browser-again"} {
+				b := b1
+				if who != "same-browser" {
+					b = e.newBrowser("https://app.example.com")
+				}
+				l := b.start("/two")
+				cb := b.callback(l.State, "code") // the identity provider answers with login 1's token again
+				issued := e.sessionCookieSet(cb)
+				out.Obs("replayed-token", true, vL(vS(kind), vBool(perReq), vS(who), vI(int64(cb.Status)), vBool(issued)))
+				out.Stat("c05_replayed_token_logins", 1)
+				if issued {
+					out.Violation("pkce-nonce/session-with-wrong-nonce", "a session was issued although the ID token does not carry this login's hashed nonce",
+						map[string]interface{}{"provider": kind, "csrf_per_request": perReq, "id_token": "the byte-identical token that completed an earlier login", "login": who, "attempt": i, "status": cb.Status})
+				}
+			}
 		}
 	}
 }
